@@ -417,7 +417,73 @@ func c12Directed(c *core.Ctx) bool {
 			}
 		}
 	}
-	c.Count("directed_callback_scenarios", 12)
+	// (d) a PostTransform that records an issue itself AND returns an error: the returned error is reported too (the first error
+	// returned is reported as an issue wrapping it), and the next transform does not run
+	for _, mode := range []string{"Parse", "Validate"} {
+		var calls []string
+		boom := errors.New("boom")
+		sch := z.String().PostTransform(func(p any, ctx z.Ctx) error {
+			calls = append(calls, "first")
+			ctx.AddIssue(ctx.Issue().SetCode("noted").SetMessage("noted by the transform"))
+			return boom
+		}).PostTransform(func(p any, ctx z.Ctx) error { calls = append(calls, "second"); return nil })
+		var l z.ZogIssueList
+		sv := "x"
+		if mode == "Parse" {
+			l = sch.Parse("x", &sv)
+		} else {
+			l = sch.Validate(&sv)
+		}
+		c.Eval(1)
+		wrapped := false
+		for _, e := range l {
+			if e.Err != nil && errors.Is(e.Err, boom) {
+				wrapped = true
+			}
+		}
+		if len(l) != 2 || !wrapped || strings.Join(calls, ",") != "first" {
+			c.Violation("post-transform-error-not-reported|"+mode, map[string]any{"schema": "String().PostTransform(records ctx.AddIssue(...) and returns errors.New(boom)).PostTransform(second)", "issues": fmt.Sprint(z.Issues.SanitizeList(l)), "an_issue_wraps_the_returned_error": wrapped, "transforms_called": calls, "want": "two issues (the recorded one and one wrapping boom), only the first transform called"})
+			return false
+		}
+	}
+	// (e) WithCtxValue(key, nil) after WithCtxValue(key, v) in the same call: the callbacks get what was passed last
+	var seenT []any
+	z.String().TestFunc(func(v any, ctx z.Ctx) bool { seenT = append(seenT, ctx.Get("tenant"), ctx.Get("other")); return true }).Parse("x", ptr(""), z.WithCtxValue("tenant", "t1"), z.WithCtxValue("other", 1), z.WithCtxValue("tenant", nil))
+	c.Eval(1)
+	if len(seenT) != 2 || seenT[0] != nil || seenT[1] != 1 {
+		c.Violation("callback-context-values|Parse", map[string]any{"options": "WithCtxValue(tenant, t1), WithCtxValue(other, 1), WithCtxValue(tenant, nil)", "ctx.Get(tenant), ctx.Get(other)": fmt.Sprint(seenT), "want": "[<nil> 1]"})
+		return false
+	}
+	// (f) the struct-level tests of a schema without fields (what Omit / Pick may leave) run, with a pointer to the struct, in both modes
+	for _, how := range []string{"Struct(Schema{})", "Struct{a}.Omit(a)"} {
+		for _, mode := range []string{"Parse", "Validate"} {
+			var got []string
+			mk := func() *z.StructSchema {
+				base := z.Struct(z.Schema{})
+				if how != "Struct(Schema{})" {
+					base = z.Struct(z.Schema{"a": z.String()})
+				}
+				base = base.TestFunc(func(v any, ctx z.Ctx) bool { got = append(got, fmt.Sprintf("%T", v)); return false }, z.Message("struct rule"))
+				if how != "Struct(Schema{})" {
+					base = base.Omit("a")
+				}
+				return base
+			}
+			var d rec
+			var m z.ZogIssueMap
+			if mode == "Parse" {
+				m = mk().Parse(map[string]any{"a": "x"}, &d)
+			} else {
+				m = mk().Validate(&d)
+			}
+			c.Eval(1)
+			if len(got) != 1 || got[0] != "*props.rec" || len(m["$root"]) != 1 {
+				c.Violation("callback-not-run|"+mode, map[string]any{"schema": how + ".TestFunc(always false)", "test_called_with": got, "issues": fmt.Sprint(z.Issues.SanitizeMap(m)), "want": "one call with *rec, one issue at $root"})
+				return false
+			}
+		}
+	}
+	c.Count("directed_callback_scenarios", 20)
 	return true
 }
 
